@@ -16,8 +16,10 @@ def _name(p, s):
     return p.add("str", s=list(s.encode()), name=True)
 
 
-def _setup(p, events, config, retval, prot=""):
-    """handlers hA/hB emit their tag and operands and return retval; metatables mtA (tA, tA2, uA) and mtB (tB, uB)"""
+def _setup(p, events, config, retval, prot="", callable_kind=""):
+    """handlers hA/hB emit their tag and operands and return retval; metatables mtA (tA, tA2, uA) and mtB (tB, uB).
+    callable_kind: "" = the handlers are functions; "table"/"userdata" = objects whose __call runs the function
+    (Lua 5.1 calls whatever non-nil value the event finds); "number" = a value that cannot be called (an error)"""
     def handler(tag):
         return p.func(["a", "b"], p.block([p.emit([p.str(tag) if isinstance(tag, str) else tag, p.id("a"), p.id("b"), p.call(p.id("select"), [p.str("#"), p.dots()])]),
                                            p.ret([retval(), p.str("second")])]), va=True, ud=True)
@@ -27,6 +29,19 @@ def _setup(p, events, config, retval, prot=""):
               p.local(["hA", "hB"], [p.call(p.id("mkh"), [p.str("hA")]), p.call(p.id("mkh"), [p.str("hB")])])]
     else:
         ss = [p.local(["hA", "hB"], [handler("hA"), handler("hB")])]
+    if callable_kind in ("table", "userdata"):
+        # wrapc(f): an object that is not a function but can be called; its own first argument (itself) is dropped
+        mk = p.call(p.id("setmetatable"), [p.table([]), p.table([("k", _name(p, "__call"), p.id("fwd"))])]) if callable_kind == "table" else None
+        if callable_kind == "table":
+            body = [p.local(["fwd"], [p.func(["self"], p.block([p.ret([p.call(p.id("f"), [p.dots()])])]), va=True, ud=True)]), p.ret([mk])]
+        else:
+            body = [p.local(["u"], [p.call(p.id("newproxy"), [p.true()])]),
+                    p.assign([p.field(p.call(p.id("getmetatable"), [p.id("u")]), "__call")], [p.func(["self"], p.block([p.ret([p.call(p.id("f"), [p.dots()])])]), va=True, ud=True)]),
+                    p.ret([p.id("u")])]
+        ss.append(p.localfunction("wrapc", p.func(["f"], p.block(body))))
+        ss.append(p.assign([p.id("hA"), p.id("hB")], [p.call(p.id("wrapc"), [p.id("hA")]), p.call(p.id("wrapc"), [p.id("hB")])]))
+    elif callable_kind == "number":
+        ss.append(p.assign([p.id("hA"), p.id("hB")], [p.num(5), p.num(5)]))
     ss += [
           p.local(["mtA", "mtB"], [p.table([]), p.table([])]),
           p.local(["tA", "tA2", "tB", "plain"], [p.call(p.id("setmetatable"), [p.table([]), p.id("mtA")]),
@@ -61,10 +76,10 @@ def _operand(p, kind):
             "uB": lambda: p.id("uB"), "nil": lambda: p.nil(), "bool": lambda: p.true()}[kind]()
 
 
-def binop_case(op, l, r, config, retkind, prot=""):
+def binop_case(op, l, r, config, retkind, prot="", callable_kind=""):
     p = Prog()
     retval = {"str": lambda: p.str("R"), "nil": lambda: p.nil(), "false": lambda: p.false(), "zero": lambda: p.num(0), "tab": lambda: p.table([])}[retkind]
-    ss = _setup(p, [EVENT[op]] + (["__lt"] if op in ("<=", ">=") and retkind == "zero" else []), config, retval, prot)
+    ss = _setup(p, [EVENT[op]] + (["__lt"] if op in ("<=", ">=") and retkind == "zero" else []), config, retval, prot, callable_kind)
     body = p.block([p.ret([p.bin(op, _operand(p, l), _operand(p, r))])])
     ss.append(p.emit([p.str("result"), p.call(p.id("pcall"), [p.func([], body)])]))
     # the same with operands in registers (locals) instead of upvalues/constants
@@ -83,9 +98,9 @@ def le_fallback_case(l, r, retkind):
     return p, p.block(ss)
 
 
-def unm_case(o, config, prot=""):
+def unm_case(o, config, prot="", callable_kind=""):
     p = Prog()
-    ss = _setup(p, ["__unm"], config, lambda: p.str("neg"), prot)
+    ss = _setup(p, ["__unm"], config, lambda: p.str("neg"), prot, callable_kind)
     ss.append(p.emit([p.str("result"), p.call(p.id("pcall"), [p.func([], p.block([p.ret([p.un("-", _operand(p, o))])]))])]))
     return p, p.block(ss)
 
